@@ -49,7 +49,7 @@ pub fn run(ctx: &mut Ctx) -> bool {
             }
         }
         "C06" => {
-            ctx.rule = "Cases are placements with one king per side (kings may be adjacent; legal or not regarding whose turn it is), loaded through from_fen; is_check is asked for BOTH colours and compared with the oracle's attack test (which goes from each enemy man to the king, the engine goes from the king outwards). Families: the complete three-man basis E4 (both kings on every ordered square pair x one further man of every kind and colour on every square), a strided four-man family (attacker + potential blocker), random sparse / dense / kings-close placements; and boards PRODUCED BY THE GENERATOR (they carry last_move / promotion / ordering fields that must not influence the answer): every successor of both generation modes along walks, en passant and promotion placements, the en passant family with a slider of the capturing side (discovered checks through either vacated square), and placements judged right after a search has run on the same thread (nothing a search leaves behind may influence the answer). Non-trivial = king on the rim, adjacent kings, an enemy pawn diagonally adjacent to a king (attacking or behind), or a man standing on the line between a king and an enemy slider; distinct by placement.".into();
+            ctx.rule = "Cases are placements with one king per side (kings may be adjacent; legal or not regarding whose turn it is), loaded through from_fen; is_check is asked for BOTH colours and compared with the oracle's attack test (which goes from each enemy man to the king, the engine goes from the king outwards). Families: the complete three-man basis E4 (both kings on every ordered square pair x one further man of every kind and colour on every square), a strided four-man family (attacker + potential blocker), random sparse / dense / kings-close placements; and boards PRODUCED BY THE GENERATOR (they carry last_move / promotion / ordering fields that must not influence the answer): every successor of both generation modes along walks, en passant and promotion placements, the en passant family with a slider of the capturing side (discovered checks through either vacated square), placements judged right after a search has run on the same thread (nothing a search leaves behind may influence the answer), and - right after generating the moves of a position on the same thread - the boards of its half-made special moves (en passant capturer on the target with the victim still there, king castled with the rook at home, pawn on the last rank). Non-trivial = king on the rim, adjacent kings, an enemy pawn diagonally adjacent to a king (attacking or behind), or a man standing on the line between a king and an enemy slider; distinct by placement.".into();
             ctx.assumptions = vec!["oracle attack test validated through the published perft totals and the 22 rule positions".into()];
             statics::run_c06(ctx);
             statics::run_c06_generated(ctx);
